@@ -228,6 +228,167 @@ def c_opq(t, i):
     return hx(c.composed_bytes)
 
 
+# ---- TLS structures against the specification -----------------------------------------------------------
+def _zs(s):
+    return [] if s == '-' else [int(x) for x in s.split(',')]
+
+
+def _member_or_invalid(enum_cls, code, width):
+    from cryptoparser.tls.grease import TlsInvalidTypeOneByte, TlsInvalidTypeTwoByte
+    for m in enum_cls:
+        if m.value.code == code:
+            return m
+    return (TlsInvalidTypeOneByte if width == 1 else TlsInvalidTypeTwoByte)(code)
+
+
+def _exts_bytes(exts):
+    out = b''
+    for e in ([] if exts == '-' else exts.split(';')):
+        t, h = e.split(':')
+        d = bytes.fromhex(h)
+        out += int(t).to_bytes(2, 'big') + len(d).to_bytes(2, 'big') + d
+    return out
+
+
+def _show_exts(exts):
+    items = []
+    for e in exts:
+        items.append('%d:%s' % (e.extension_type.value.code, hx(bytes(e.compose())[4:])))
+    return ';'.join(items) or '-'
+
+
+def _version(code):
+    from cryptodatahub.tls.version import TlsVersion
+    from cryptoparser.tls.version import TlsProtocolVersion
+    for m in TlsVersion:
+        if m.value.code == code:
+            return TlsProtocolVersion(m)
+    raise TypeError('not constructible: version %d' % code)
+
+
+def ch_enc(ver, rnd, sid, suites, comps, exts):
+    from cryptodatahub.tls.algorithm import TlsCipherSuite, TlsCompressionMethod
+    from cryptoparser.tls.subprotocol import (TlsHandshakeClientHello, TlsHandshakeHelloRandom, TlsSessionIdVector,
+                                               TlsCipherSuiteVector, TlsCompressionMethodVector)
+    from cryptoparser.tls.extension import TlsExtensionsClient
+    codes = _zs(suites)
+    plain = [c for c in codes if c not in (0x5600, 0x00ff)]
+    eb = _exts_bytes(exts)
+    ext_objs = TlsExtensionsClient.parse_exact_size(len(eb).to_bytes(2, 'big') + eb)
+    hello = TlsHandshakeClientHello(
+        cipher_suites=TlsCipherSuiteVector([_member_or_invalid(TlsCipherSuite, c, 2) for c in plain]),
+        protocol_version=_version(int(ver)),
+        random=TlsHandshakeHelloRandom.parse_exact_size(bytes.fromhex(rnd)),
+        session_id=TlsSessionIdVector(list(bytes.fromhex('' if sid == '-' else sid))),
+        compression_methods=TlsCompressionMethodVector([_member_or_invalid(TlsCompressionMethod, c, 1) for c in _zs(comps)]),
+        extensions=ext_objs,
+        fallback_scsv=0x5600 in codes,
+        empty_renegotiation_info_scsv=0x00ff in codes,
+    )
+    return hx(hello.compose())
+
+
+def show_ch(h, n):
+    return '%d %s %s %s %d %d %s %s n=%d' % (
+        h.protocol_version.version.value.code, hx(h.random.compose()), hx(bytes(bytearray(list(h.session_id)))) or '-',
+        ','.join(str(c.value.code) for c in h.cipher_suites) or '-', int(h.fallback_scsv), int(h.empty_renegotiation_info_scsv),
+        ','.join(str(c.value.code) for c in h.compression_methods) or '-', _show_exts(h.extensions), n)
+
+
+def ch_dec(h):
+    from cryptoparser.tls.subprotocol import TlsHandshakeClientHello
+    obj, n = TlsHandshakeClientHello.parse_immutable(bytes.fromhex(h))
+    return show_ch(obj, n)
+
+
+def ja3_cmd(h):
+    from cryptoparser.tls.subprotocol import TlsHandshakeClientHello
+    obj, _ = TlsHandshakeClientHello.parse_immutable(bytes.fromhex(h))
+    return obj.ja3()
+
+
+def sh_enc(ver, rnd, sid, suite, comp, exts):
+    from cryptodatahub.tls.algorithm import TlsCipherSuite, TlsCompressionMethod
+    from cryptoparser.tls.subprotocol import TlsHandshakeServerHello, TlsHandshakeHelloRandom, TlsSessionIdVector
+    from cryptoparser.tls.extension import TlsExtensionsServer
+    eb = _exts_bytes(exts)
+    ext_objs = TlsExtensionsServer.parse_exact_size(len(eb).to_bytes(2, 'big') + eb)
+    hello = TlsHandshakeServerHello(
+        protocol_version=_version(int(ver)),
+        random=TlsHandshakeHelloRandom.parse_exact_size(bytes.fromhex(rnd)),
+        session_id=TlsSessionIdVector(list(bytes.fromhex('' if sid == '-' else sid))),
+        compression_method=_member_or_invalid(TlsCompressionMethod, int(comp), 1),
+        cipher_suite=_member_or_invalid(TlsCipherSuite, int(suite), 2),
+        extensions=ext_objs,
+    )
+    return hx(hello.compose())
+
+
+def cert_enc(certs):
+    from cryptoparser.tls.subprotocol import TlsHandshakeCertificate, TlsCertificates, TlsCertificate
+    return hx(TlsHandshakeCertificate(TlsCertificates([TlsCertificate(bytes.fromhex(c)) for c in ([] if certs == '-' else certs.split(','))])).compose())
+
+
+def shd_enc():
+    from cryptoparser.tls.subprotocol import TlsHandshakeServerHelloDone
+    return hx(TlsHandshakeServerHelloDone().compose())
+
+
+def rec_enc(ct, ver, frag):
+    return c_frame('tlsrecord', '%s,%s' % (ct, ver), '' if frag == '-' else frag)
+
+
+def alert_enc(level, desc):
+    from cryptoparser.tls.subprotocol import TlsAlertMessage
+    return hx(TlsAlertMessage(int(level), int(desc)).compose())
+
+
+def ccs_enc():
+    from cryptoparser.tls.subprotocol import TlsChangeCipherSpecMessage
+    return hx(TlsChangeCipherSpecMessage().compose())
+
+
+def ext_enc(kind, arg):
+    from cryptodatahub.tls.algorithm import (TlsNamedCurve, TlsECPointFormat, TlsSignatureAndHashAlgorithm, TlsPskKeyExchangeMode,
+                                             TlsProtocolName)
+    from cryptodatahub.tls.version import TlsVersion
+    from cryptoparser.tls import extension as ex
+    from cryptoparser.tls.version import TlsProtocolVersion
+    from cryptoparser.tls.grease import TlsInvalidTypeTwoByte
+    if kind == 'G':
+        obj = ex.TlsExtensionEllipticCurves([_member_or_invalid(TlsNamedCurve, c, 2) for c in _zs(arg)])
+    elif kind == 'P':
+        obj = ex.TlsExtensionECPointFormats([_member_or_invalid(TlsECPointFormat, c, 1) for c in _zs(arg)])
+    elif kind == 'V':
+        items = []
+        for c in _zs(arg):
+            ms = [m for m in TlsVersion if m.value.code == c]
+            items.append(TlsProtocolVersion(ms[0]) if ms else TlsInvalidTypeTwoByte(c))
+        obj = ex.TlsExtensionSupportedVersionsClient(items)
+    elif kind == 'S':
+        obj = ex.TlsExtensionSignatureAlgorithms([_member_or_invalid(TlsSignatureAndHashAlgorithm, c, 2) for c in _zs(arg)])
+    elif kind == 'A':
+        names = []
+        for h in ([] if arg == '-' else arg.split(',')):
+            code = bytes.fromhex(h).decode('utf-8')
+            ms = [m for m in TlsProtocolName if m.value.code == code]
+            if not ms:
+                raise TypeError('not constructible: unknown protocol name')
+            names.append(ms[0])
+        obj = ex.TlsExtensionApplicationLayerProtocolNegotiation(names)
+    elif kind == 'N':
+        obj = ex.TlsExtensionServerNameClient(bytes.fromhex(arg).decode('ascii'))
+    elif kind == 'K':
+        obj = ex.TlsExtensionPskKeyExchangeModes([_member_or_invalid(TlsPskKeyExchangeMode, c, 1) for c in _zs(arg)])
+    elif kind == 'L':
+        obj = ex.TlsExtensionRecordSizeLimit(int(arg))
+    elif kind == 'R':
+        obj = ex.TlsExtensionRenegotiationInfo(ex.TlsRenegotiatedConnection(list(bytes.fromhex('' if arg == '-' else arg))))
+    else:
+        raise KeyError(kind)
+    return hx(bytes(obj.compose())[4:])
+
+
 # ---- framing units -----------------------------------------------------------------------------------
 def unit_class(u):
     from cryptoparser.tls.record import TlsRecord
@@ -517,6 +678,8 @@ def impl_vec_line(line):
 
 
 COMMANDS = {
+    'chenc': ch_enc, 'chdec': ch_dec, 'ja3impl': ja3_cmd, 'shenc': sh_enc, 'certenc': cert_enc, 'shdenc': shd_enc,
+    'recenc': rec_enc, 'alertenc': alert_enc, 'ccsenc': ccs_enc, 'extenc': ext_enc,
     'pframe': p_frame, 'xframe': x_frame, 'mframe': m_frame, 'cframe': c_frame,
     'popq': p_opq, 'copq': c_opq,
     'penum': p_enum, 'cenum': c_enum, 'pinv': p_inv, 'pevec': p_evec, 'cevec': c_evec,
